@@ -47,7 +47,7 @@ PRECS_HEAVY = S.PRECS_HEAVY
 PRECS_XHEAVY = [10, 15, 24, 30, 53, 64, 100]
 
 # evaluations per cell: cost class -> (quick, thorough)
-N_PER_CELL = {1: (40, 320), 2: (15, 120), 3: (6, 48), 4: (2, 14)}
+N_PER_CELL = {1: (40, 200), 2: (15, 75), 3: (6, 30), 4: (2, 10)}
 # estimated seconds per evaluation (all sources) by cost class; used only for balancing the shards
 EST_COST = {1: 0.01, 2: 0.08, 3: 0.4, 4: 2.0}
 
@@ -134,6 +134,17 @@ def near_p(center, pk, cplx=None):
     else:
         num, shift = center
     return near_c(num, shift, pk=pk, im=cplx)
+
+
+def capped(pk, kmin=3):
+    """ENVELOPE for cells next to a pole / singular point ("away from poles / singularities"): the distance 2^-k to the
+    singular point is at least 4 units of 2^-p, i.e. k <= p - 2 (closer arguments round to the singular point itself at the
+    working precision).  Wraps a pk(p) -> (lo, hi) function.  Fixed before looking at any result."""
+    def f(p):
+        lo, hi = pk(p)
+        cap = max(kmin, p - 2)
+        return (max(kmin, min(lo, cap)), max(kmin, min(hi, cap)))
+    return f
 
 
 def near_any(centers, kmin=4, kmax=40, pk=None, im=None):
@@ -523,9 +534,10 @@ def run(prop, table, shard, rec, tol_exp=8, tmax=20.0):
     rec.event('reference consensus evaluations', sum(counts.values()))
     rec.event('worker cpu seconds', int(time.process_time()))
     import os
-    if os.environ.get('VERIF_J_PROFILE'):
-        for k, v in cellcpu.items():
-            rec.note('cell-cpu', [k, round(v, 2)], cap=1000)
+    if os.environ.get('VERIF_J_PROFILE'):     # development aid: per-cell CPU of this shard as a JSON file
+        import json
+        with open('%s-%s-%d.json' % (os.environ['VERIF_J_PROFILE'], prop, shard['shard']), 'w') as f:
+            json.dump(dict(cellcpu), f)
     if cellcpu:
         k = max(cellcpu, key=cellcpu.get)
         rec.maximum('cell_cpu_seconds', cellcpu[k], {'cell': k})
